@@ -332,6 +332,13 @@ func (h *histRunner) step(st *histState, gap int64, x *explore.Exec, cookieVal s
 			bad("refusal-keeps-cookie", "the authenticator refused (or grace was over) but the session cookie was not cleared")
 		}
 	}
+	if p.Alphabet == "c05" && cls == checkUnavailable && graceOK() && resp.Panic == nil {
+		// "an existing session keeps working": inside the grace period an unavailable authenticator costs the user nothing
+		if !obs.Served || cleared {
+			bad("outage-inside-grace-not-tolerated", fmt.Sprintf("the authenticator was merely unavailable (%v) %ds into the outage, grace is %ds and the lifetime bound is +%ds away, yet the request was not served (status %d, cookie cleared: %v)",
+				obs.Calls, now-map[bool]int64{true: now, false: st.Outage}[st.Outage < 0], p.G, st.B-now, obs.Status, cleared))
+		}
+	}
 	if reissued != nil {
 		if secs(reissued.LifetimeDeadline) != st.B {
 			bad("lifetime-moved", fmt.Sprintf("re-issued cookie has lifetime deadline +%ds, login stamped +%ds", secs(reissued.LifetimeDeadline), st.B))
